@@ -35,13 +35,20 @@ def generate(rng, tier):
         yield R.gen_case(rng, tier)
 
 
+def writer_threads(case):
+    """F7/F8/F11/F13 need two publishers inside `publish` at once: with ONE writer thread the multi-producer sequencer releases
+    everything (c06_multi_single_writer_*), so a stranded sequence there is not the known finding"""
+    m = re.search(r'writers=(\S+)', case.header)
+    return len(m.group(1).split('|')) if m else 1
+
+
 def signatures(case, lines):
     """F11: a multi-producer run that does not end because a written sequence whose `write` call has returned was
     stranded below the cursor (out-of-order publication); every other non-ok end stays a violation"""
     out = []
     for l in lines:
         m = re.search(r'run ended with status (\w+) kind=(\S+) producer=(\w+)', l)
-        if m and m.group(1) != 'ok' and m.group(2) == 'multi-stranded' and m.group(3) == 'multi':
+        if m and m.group(1) != 'ok' and m.group(2) == 'multi-stranded' and m.group(3) == 'multi' and writer_threads(case) >= 2:
             out.append({'producer': 'multi', 'kind': 'multi-stranded'})
         else:
             out.append(None)
